@@ -76,6 +76,8 @@ class Spec(SeqSpec):
     def step_check(self, world, before, after, res, hist, model_before):
         probs = []
         op = res.op
+        for d in after.missing_folders:
+            probs.append(('container-folder-missing', f'after {op[0]} the {d}/ folder of the container no longer exists'))
         if op[0] == 'delete':
             deleted = {world.model.key(i) for i in op[1]}
             for name in after.duplicates:
